@@ -1057,7 +1057,7 @@ namespace avel {
         scatter(ptr, v, indices, N);
     }
 
-    AVEL_FINL void scatter(std::int32_t* ptr, vec8x32i indices, vec8x32i v) {
+    AVEL_FINL void scatter(std::int32_t* ptr, vec8x32i v, vec8x32i indices) {
         #if defined(AVEL_AVX512VL) || defined(AVEL_AVX10_1)
         _mm256_i32scatter_epi32(ptr, decay(indices), decay(v), sizeof(std::int32_t));
 
